@@ -323,6 +323,11 @@ func genScript(r *Run, c *muxCfg, g *muxGen) []*writeCall {
 	ntpBase := time.Date(2020+T.Intn(10), time.Month(1+T.Intn(12)), 1+T.Intn(28), T.Intn(24), T.Intn(60), T.Intn(60),
 		T.Intn(1000)*1000000, time.UTC)
 	ntpMode := T.Intn(4) // 0 exact, 1 jitter, 2 jumps, 3 drift
+	// wall-clock times need not be expressed in UTC
+	var zone *time.Location
+	if T.Chance(1, 4) {
+		zone = time.FixedZone("", Pick(T, 3600, 7200, -12600, 19800, -36000, 45900))
+	}
 
 	type stream struct {
 		ts    *trackSpec
@@ -443,6 +448,9 @@ func genScript(r *Run, c *muxCfg, g *muxGen) []*writeCall {
 			d += d / 1000
 		}
 		cl.ntp = ntpBase.Add(d)
+		if zone != nil {
+			cl.ntp = cl.ntp.In(zone) // the same instant, expressed in another time zone
+		}
 		// per-unit NTP as the statement implies for multi-unit audio writes
 		for _, u := range cl.units {
 			u.ntpUnix = cl.ntp.UnixNano() + (u.dts-cl.units[0].dts)*int64(time.Second)/int64(cl.track.clock)
@@ -544,7 +552,14 @@ func genVideoCalls(T *Tape, g *muxGen, c *muxCfg, ts *trackSpec, _ []*writeCall,
 			size = bigSize(T, c)
 		}
 		u := &unit{track: ts.id, idx: len(ts.units), dts: dts, pts: dts, ra: key, params: p, carries: inband}
-		u.data, u.payload = buildVideoUnit(ts.kind, ts.id, u.idx, key, p, inband, size)
+		if inband && firstKeyDone && (ts.kind == "h264" || ts.kind == "h265") && T.Chance(1, 5) {
+			// the parameter sets travel in a Write call of their own (no slice in it) right before the picture
+			// (not before the very first key frame: the library's DTS extractor needs them inside that unit)
+			u.sep = paramNALUs(ts.kind, p)
+			u.data, u.payload = buildVideoUnit(ts.kind, ts.id, u.idx, key, p, false, size)
+		} else {
+			u.data, u.payload = buildVideoUnit(ts.kind, ts.id, u.idx, key, p, inband, size)
+		}
 		ts.units = append(ts.units, u)
 		*out = append(*out, &writeCall{track: ts, pts: dts, units: []*unit{u}})
 		if changed || inband {
@@ -750,8 +765,18 @@ func (w *muxWorld) doWrite(cl *writeCall) error {
 	ts := cl.track
 	switch ts.kind {
 	case "h264":
+		if sep := cl.units[0].sep; sep != nil {
+			if err := w.m.WriteH264(ts.t, cl.ntp, cl.pts, sep); err != nil {
+				return err
+			}
+		}
 		return w.m.WriteH264(ts.t, cl.ntp, cl.pts, cl.units[0].data)
 	case "h265":
+		if sep := cl.units[0].sep; sep != nil {
+			if err := w.m.WriteH265(ts.t, cl.ntp, cl.pts, sep); err != nil {
+				return err
+			}
+		}
 		return w.m.WriteH265(ts.t, cl.ntp, cl.pts, cl.units[0].data)
 	case "vp9":
 		return w.m.WriteVP9(ts.t, cl.ntp, cl.pts, cl.units[0].data[0])
